@@ -86,7 +86,7 @@ def wire_episodes(rng):
 def check(ctx):
     ctx.assumptions += [
         "crypto/rand yields pairwise distinct 12-byte draws (id_injective turns that into distinct identifiers); the harness counts duplicates among all generated IDs it sees",
-        "the optional `request-id` plugin, which overwrites X-Request-ID by design, is not part of the chains considered",
+        "the optional `request-id` plugin, which overwrites X-Request-ID by design, is not part of the chains of the propagation episodes; the identifiers it draws are counted for uniqueness under concurrency (`id burst` with the plugin in the chain)",
         "requests are built in-process through the real buildHandler composition (plugins -> RequestContextMiddleware -> LoadBalancer) with one real backend",
     ]
     ok = C.prove(ctx, MODULES, THEOREMS)
@@ -95,6 +95,9 @@ def check(ctx):
     d = C.Differential(ctx, binary, timeout=900)
     n = 1500 if ctx.thorough() else 250
     episodes = C.load_corpus(ID) + [gen_episode(ctx.rng, ctx.thorough()) for _ in range(n)]
+    # the optional request-id plugin draws identifiers of its own: they too are distinct under concurrency
+    episodes += [["id new %s - %s - rid 0" % (a, b), "id burst %d %d" % (n, wk)] for a, b, n, wk in
+                 (("0", "0", 20000 if not ctx.thorough() else 100000, 16), ("1", "1", 5000, 8), ("0", "1", 5000, 12))]
     bad = d.check(episodes, oracle=oracle, label="ids")
     from . import c01
     we = wire_episodes(ctx.rng)
